@@ -320,6 +320,13 @@ static bool execute(const JV &c, OPN2_MIDIPlayer *&dev, JW &w)
     if(e == "rt_resetState") VOID(opn2_rt_resetState(D));
     const OPN2_UInt8 ch = (OPN2_UInt8)c.get("ch");
     if(e == "rt_noteOn") RET(opn2_rt_noteOn(D, ch, (OPN2_UInt8)c.get("k"), (OPN2_UInt8)c.get("v")));
+    if(e == "noteBurst")      // cnt simultaneous note-ons (keys k, k+1, ... modulo 128): r = how many of them were accepted
+    {
+        long cnt = (long)c.get("cnt"), k0 = (long)c.get("k"), ok = 0;
+        for(long i = 0; i < cnt; ++i)
+            if(opn2_rt_noteOn(D, ch, (OPN2_UInt8)((k0 + i) % 128), (OPN2_UInt8)c.get("v")) != 0) ++ok;
+        RET(ok);
+    }
     if(e == "rt_noteOff") VOID(opn2_rt_noteOff(D, ch, (OPN2_UInt8)c.get("k")));
     if(e == "rt_noteAfterTouch") VOID(opn2_rt_noteAfterTouch(D, ch, (OPN2_UInt8)c.get("k"), (OPN2_UInt8)c.get("v")));
     if(e == "rt_channelAfterTouch") VOID(opn2_rt_channelAfterTouch(D, ch, (OPN2_UInt8)c.get("v")));
